@@ -50,9 +50,10 @@ BlocksOK9(img, kind, blocks, tree, firstOff, perSlot) ==
   /\ (Len(blocks) > 0 => blocks[1].off = firstOff)
   /\ \A i \in 2..Len(blocks) : blocks[i].off = blocks[i-1].off + blocks[i-1].size
 
-TreeOK9(t, endOff) ==
+TreeOK9(t, endOff, blocks) ==
   /\ t.error = 0 /\ t.magic = "2468ACE0"
-  /\ t.endFileOffset = endOff
+  \* "end of the indexed data": where the index starts, or where the last block ends
+  /\ (t.endFileOffset = endOff \/ (Len(blocks) > 0 /\ t.endFileOffset = blocks[Len(blocks)].off + blocks[Len(blocks)].size))
   /\ (Len(t.leaves) > 0 =>
         LET secs == Map(LAMBDA lf : <<lf[1], lf[2], lf[4]>>, t.leaves) IN TreeVerdict(t, secs) = "ok")
 
@@ -60,21 +61,21 @@ WellFormed(img, kind, usedChroms, sizes, sortedInput) ==
   /\ img.error = 0
   /\ HeaderOK9(img, kind)
   /\ ChromTreeOK9(img.ctree, usedChroms, sizes, sortedInput)
-  /\ TreeOK9(img.index, img.fullIndexOffset)
+  /\ TreeOK9(img.index, img.fullIndexOffset, img.blocks)
   /\ BlocksOK9(img, kind, img.blocks, img.index, img.fullDataOffset + 8, img.index.itemsPerSlot)
   /\ (kind = "bw" => img.dataCount = Len(img.blocks))
   /\ (kind = "bw" => \A i \in 1..Len(img.blocks) : img.blocks[i].hs = img.blocks[i].minstart /\ img.blocks[i].he = img.blocks[i].maxend)
   /\ \A k \in 1..Len(img.zooms) :
        LET z == img.zooms[k] IN
        /\ z.reduction = img.zoomDir[k][1]
-       /\ TreeOK9(z.index, img.zoomDir[k][3])
+       /\ TreeOK9(z.index, img.zoomDir[k][3], z.blocks)
        /\ BlocksOK9(img, "zoom", z.blocks, z.index, img.zoomDir[k][2], z.index.itemsPerSlot)
 
 WhyNot(img, kind, usedChroms, sizes, sortedInput) ==
   IF img.error # 0 THEN "undecodable"
   ELSE IF ~HeaderOK9(img, kind) THEN "header"
   ELSE IF ~ChromTreeOK9(img.ctree, usedChroms, sizes, sortedInput) THEN "chromtree"
-  ELSE IF ~TreeOK9(img.index, img.fullIndexOffset) THEN "index"
+  ELSE IF ~TreeOK9(img.index, img.fullIndexOffset, img.blocks) THEN "index"
   ELSE IF ~BlocksOK9(img, kind, img.blocks, img.index, img.fullDataOffset + 8, img.index.itemsPerSlot) THEN "blocks"
   ELSE IF ~WellFormed(img, kind, usedChroms, sizes, sortedInput) THEN "zoom-or-count"
   ELSE "ok"
